@@ -1034,3 +1034,108 @@ func Narrow(r *rand.Rand, t Ty) Ty             { return (&Gen{R: r}).Narrow(t) }
 func Widen(r *rand.Rand, t Ty) Ty              { return (&Gen{R: r}).Widen(t) }
 func WidenRange(r *rand.Rand, t Ty) (Ty, bool) { return (&Gen{R: r}).WidenRange(t) }
 func Contexts(r *rand.Rand, a, b Ty) []Ctx     { return (&Gen{R: r}).Contexts(a, b) }
+
+// SwapOne answers t with exactly one member of one list-shaped node (the sources of a Pattern, the values of an Enum,
+// the members of a Variant, Tuple or Struct) replaced by a different one, all lengths kept: the partner that an
+// equality deciding by length alone, or by inclusion one way only, cannot tell from t. False when t has no such node.
+func (g *Gen) SwapOne(t Ty) (Ty, bool) {
+	var sites [][]int
+	var walk func(t Ty, path []int)
+	walk = func(t Ty, path []int) {
+		switch t.K {
+		case "pat", "enum":
+			if len(t.S) > 0 {
+				sites = append(sites, append([]int{}, path...))
+			}
+		case "var", "tup", "struct":
+			if len(t.Ts)+len(t.Ms) > 0 {
+				sites = append(sites, append([]int{}, path...))
+			}
+		}
+		for i, k := range t.Ts {
+			walk(k, append(path, i))
+		}
+		for i, m := range t.Ms {
+			walk(m.T, append(path, i))
+		}
+	}
+	walk(t, nil)
+	if len(sites) == 0 {
+		return t, false
+	}
+	path := sites[g.n(len(sites))]
+	var at func(t Ty, path []int) Ty
+	at = func(t Ty, path []int) Ty {
+		r := t
+		if len(path) > 0 {
+			if len(t.Ts) > 0 {
+				r.Ts = append([]Ty{}, t.Ts...)
+				r.Ts[path[0]] = at(t.Ts[path[0]], path[1:])
+			} else {
+				r.Ms = append([]Member{}, t.Ms...)
+				m := t.Ms[path[0]]
+				r.Ms[path[0]] = Mem(m.Name, m.Opt, at(m.T, path[1:]))
+			}
+			return r
+		}
+		switch t.K {
+		case "pat", "enum":
+			pool := strPool
+			if t.K == "pat" {
+				pool = patPool
+			}
+			r.S = append([]string{}, t.S...)
+			i := g.n(len(r.S))
+			for k := 0; k < 20; k++ {
+				s := g.pickS(pool)
+				if t.K == "enum" && t.CI {
+					s = strings.ToLower(s)
+				}
+				if s != r.S[i] {
+					r.S[i] = s
+					break
+				}
+			}
+		default:
+			fresh := func(old Ty) Ty {
+				for k := 0; k < 20; k++ {
+					n := g.Ty(1)
+					if n.String() != old.String() {
+						return n
+					}
+				}
+				return old
+			}
+			if len(t.Ts) > 0 {
+				r.Ts = append([]Ty{}, t.Ts...)
+				i := g.n(len(r.Ts))
+				r.Ts[i] = fresh(r.Ts[i])
+			} else {
+				r.Ms = append([]Member{}, t.Ms...)
+				i := g.n(len(r.Ms))
+				m := r.Ms[i]
+				r.Ms[i] = Mem(m.Name, m.Opt, fresh(m.T))
+			}
+		}
+		return r
+	}
+	return at(t, path), true
+}
+
+// PatSrcs answers n distinct-or-not pattern sources of the pool.
+func (g *Gen) PatSrcs(n int) []string {
+	srcs := make([]string, n)
+	for i := range srcs {
+		srcs[i] = g.pickS(patPool)
+	}
+	return srcs
+}
+
+// EnumN answers a case-sensitive Enum of n pool values.
+func (g *Gen) EnumN(n int) Ty {
+	vs := make([]string, n)
+	for i := range vs {
+		vs[i] = g.pickS(strPool)
+	}
+	return Enum(false, vs...)
+}
